@@ -217,6 +217,12 @@ def check_models(ctx, case):
                 out["pdf"] = {b: dict(t) for b, t in g.ballot_type_pdf.items()}
             return out
         t0 = read()
+        # a second generator with the same names and other numbers must not touch the first one's tables
+        bp.make_decoy(model, p, None, use=rnd.random() < 0.5)
+        ctx.count("decoy_generators_built")
+        if read() != t0:
+            ctx.fail(f"{model}: constructing another generator with the same bloc names changed this generator's tables", case, {})
+            return
         for N in (rnd.choice([1, 2, 5]), rnd.choice([3, 8])):
             ou = observe(g.generate_profile, N)
             ctx.count("tables_reread_after_use")
